@@ -145,9 +145,11 @@ def run_case(case, env):
     trace = []
     golden_content = {}   # rel output -> content after the last successful generation of an *unplanted* source
 
+    prev_plain, prev_exit = None, None
     for si, step in enumerate(case["steps"]):
         if step["op"] != "GEN":
             sb.apply(step)
+            prev_plain = None
             continue
         pred = engine.predicted_outputs(step, sb.root, sb.cwd)
         relpred = {sb.rel(p): v for p, v in pred.items()}
@@ -191,17 +193,19 @@ def run_case(case, env):
                     if p in golden_content and golden_content[p] != after.content(p) and not step.get("changed_since_golden"):
                         pass
                     golden_content[p] = after.content(p)
-            if step.get("rerun"):
-                ch = engine.diff_paths(before, after)
+            if step.get("rerun") and prev_plain is not None and all(prev_plain.get(k) == step.get(k) for k in ("sources", "O", "no_dyn", "no_lower")) and prev_exit == 0:
+                ch = [p for p in engine.diff_paths(before, after) if not (fsmodel.is_temp(p) and res.exit_status != 0)]
                 if ch:
                     vs.append(V("untouched", "rerun:touched", "identical re-run changed %s" % ch))
             for v in vs:
                 v["step"] = si
             viol += vs
+            prev_plain, prev_exit = step, res.exit_status
             trace.append({"step": si, "argv": engine.argv_for(step, env, "@BOX@")[3:], "exit": res.disposition()})
             continue
 
         # ---- faulty GEN
+        prev_plain = None
         vs = []
         victim_spell = [s for s in step["sources"] if posixpath.normpath(s) == posixpath.normpath(plant["source"])][0]
         vpos = step["sources"].index(victim_spell)
